@@ -177,6 +177,19 @@ struct World
         bwd.push_back(it->id);
       }
       SIM_CHECK(fwd == m, "membership", when + ": list " + std::to_string(l) + " contains " + vstr(fwd) + ", model " + vstr(m));
+      {
+        // the other iterator operations: post-increment / post-decrement, operator->, copies
+        std::vector<long> post;
+        for (auto it = L.begin(); it != L.end() && post.size() < bound;)
+        {
+          auto const old = it++;
+          post.push_back((*old).id);
+          auto back = it;
+          back--;
+          SIM_CHECK(back == old && !(back != old), "iterator", when + ": it++ followed by it-- does not return to the same element");
+        }
+        SIM_CHECK(post == m, "iterator", when + ": post-increment iteration of list " + std::to_string(l) + " gives " + vstr(post) + ", model " + vstr(m));
+      }
       SIM_CHECK(cfwd == m, "membership", when + ": const iteration differs");
       std::vector<long> rm(m.rbegin(), m.rend());
       SIM_CHECK(bwd == rm, "membership", when + ": backward iteration of list " + std::to_string(l) + " gives " + vstr(bwd) + ", model " + vstr(rm));
